@@ -306,7 +306,8 @@ def tree_case(case):
         counter[0] += 1
         p = nn.Parameter(sg.Tensor(np.zeros(counter[0]), requires_grad=True))       # distinct size = identity tag
         subs = []
-        if own_first:
+        has_own = not (case.get("bare_inner") and children)     # bare_inner: containers hold no parameter of their own
+        if own_first and has_own:
             m.w = p
         if post_assign == "bottom_up":
             built = [build(tuple(c)) for c in children]
@@ -317,9 +318,9 @@ def tree_case(case):
             for i, c in enumerate(children):
                 cm, cexp = build(tuple(c)); setattr(m, f"c{i}", cm); built.append((cm, cexp))
             subs = [e for _, e in built]
-        if not own_first:
+        if not own_first and has_own:
             m.w = p
-        return m, [p.size] + [x for e in subs for x in e]
+        return m, ([p.size] if has_own else []) + [x for e in subs for x in e]
     root, exp = build(tuple(shape))
     viol = []
     got = [p.size for p in root.parameters()]
@@ -335,6 +336,20 @@ def tree_case(case):
     if root.num_params(trainable=True) != 0 or root.num_params(non_trainable=True) != sum(exp): viol.append({"kind": "tree:num_params", "detail": "trainable/frozen split after freeze"})
     root.unfreeze()
     if not all(p.requires_grad for p in root.parameters()): viol.append({"kind": "tree:unfreeze", "detail": f"tree {shape}"})
+    # zero_grad reaches every parameter of the tree, also below containers that hold no parameter themselves
+    params = list(root.parameters())
+    if params:
+        tot = None
+        for q in params: tot = q.sum() if tot is None else tot + q.sum()
+        try:
+            tot.backward()
+            if any(q.grad is None or not np.all(np.asarray(q.grad.data) == 1) for q in params):
+                viol.append({"kind": "tree:backward", "detail": f"tree {shape}: a parameter did not receive its gradient"})
+            root.zero_grad()
+            left = [q.size for q in params if q.grad is not None and np.any(np.asarray(q.grad.data) != 0)]
+            if left: viol.append({"kind": "tree:zero_grad", "detail": f"tree {shape}: root.zero_grad() left gradients on parameters of sizes {left}"})
+        except Exception as e:
+            viol.append({"kind": "tree:zero_grad", "detail": f"tree {shape}: {type(e).__name__}: {str(e)[:80]}"})
     # the same calls issued while gradient tracking is switched off (a fine-tuning callback during validation): what a
     # module call does to its tree does not depend on the gradient mode
     sg_ = harness.load()
@@ -365,6 +380,7 @@ def run(tier, seed):
             for vv in sequential_case(c):
                 res.violations.append(dict(vv, case=c))
     trees = [{"tree": t, "own_first": of, "attach": at} for t in tree_shapes(5 if tier == "quick" else 6) for of in (True, False) for at in ("bottom_up", "top_down")]
+    trees += [{"tree": t, "own_first": True, "attach": at, "bare_inner": True} for t in tree_shapes(5 if tier == "quick" else 6) for at in ("bottom_up", "top_down")]
     with harness.quiet():
         for c in trees:
             for vv in tree_case(c):
@@ -377,7 +393,7 @@ def run(tier, seed):
                    "zero_grad on any node, one backward through all trainable parameters; after every event, for every module as "
                    "root: parameters() identity list (each reachable once; order = registration order, slot-keeping or latest-"
                    "registration both accepted), num_params x3, training flags, requires_grad flags, gradient presence; plus all "
-                   f"{nseq} Sequentials of <= 3 layers over {{x*2, x+1, relu, Linear}} positional and OrderedDict, every ordered tree shape with <= 5 modules (parameters() = depth-first pre-order, mode / freeze propagation), also with the same module instance in two positions and with post-construction edits "
+                   f"{nseq} Sequentials of <= 3 layers over {{x*2, x+1, relu, Linear}} positional and OrderedDict, every ordered tree shape with <= 5 modules (parameters() = depth-first pre-order, mode / freeze / zero_grad propagation, also with inner containers that hold no parameter of their own), also with the same module instance in two positions and with post-construction edits "
                    "(replace the first stage by attribute assignment, the last by register_module, append a stage)"}
     return {"level": "model_checking", "violations": res.violations, "coverage": cov,
             "assumptions": ["cycles in the module graph are excluded", "whether zero_grad also clears a frozen parameter's stale gradient is left open",
